@@ -9,7 +9,7 @@ entry that breaks a theorem of lean/Seccomp/Proofs/C12.lean:
                                                             lookup_inverse, invert_deterministic)
   entry that disagrees with an oracle source              (table_agrees_with_oracles)
   alias that resolves to another row, unexpected keys     (aliases_resolve, alias_keys_expected)
-  table-less row that is not reported / wrong guard       (tableless_arch_unsupported, getinfo_shape)
+  table-less row that is not reported / wrong guard       (tableless_arch_unsupported, getinfo_tie)
   Info.ID or auditArch* constant ≠ linux/audit.h          (audit_ids_equal_kernel, audit_consts_equal_kernel)
   SeccompMask                                             (x32_mask)
   ABI literal of the generator                            (abi_filter_matches_tbl_format)
@@ -225,14 +225,9 @@ def hook(check, failed, mism):
                     "failing input: arch/zarches.go %s = 0x%x but %s = %s (linux/audit.h evaluated by gcc)\nbroken theorem: C12.audit_consts_equal_kernel\n"
                     % (c["name"], c["val"], kname, "0x%x" % audit[kname] if kname in audit else "undefined"))
 
-    # --- GetInfo guard (the compiled behaviour is observed by the stream; this names the source fact)
-    if guard != EXPECTED_GUARD:
-        tl = [k for k, v in sorted(arches.items()) if row_by_var.get(v) and not row_by_var[v].get("names")]
-        k = tl[0] if tl else "ppc"
-        add("getinfo:%s" % k, "GetInfo's guard is %r, expected %r: table-less architectures are not reported as unsupported" % (guard, EXPECTED_GUARD),
-            "failing input: arch.GetInfo(%r) does not return the unsupported-architecture error (guard in the source: `%s`)\nrequest: GETINFO %s\nbroken theorems: C12.getinfo_shape, tableless_arch_unsupported\n"
-            % (k, guard, hexs(k)))
-
+    # --- GetInfo itself: its body is regenerated as Gen.getInfoSkel and tied to Arch.getInfo by
+    # C12.getinfo_tie (a broken tie is reported as a broken obligation); the compiled behaviour is
+    # observed by the tables stream, which is where a failing input comes from.
     # --- generator ABI literals: observed on the real generator code with a fixture table
     abi = facts.get("abiSkip", {})
     gen_tables, note = run_generator_fixture(repo)
